@@ -43,6 +43,10 @@ where
     #[cfg(zinoma_verif)]
     crate::verif::point("incr_deleted", &target.id.to_string(), &[]).await;
 
+    // The state of the inputs is captured before the script runs: a change made to an input while the
+    // script is running has not been built, and must not be recorded as if it had.
+    let input_state = TargetEnvState::current_input(target_input).await;
+
     let build_report = future.await?;
     #[cfg(zinoma_verif)]
     crate::verif::point("incr_script_done", &target.id.to_string(), &[]).await;
@@ -50,7 +54,7 @@ where
     match build_report {
         BuildTerminationReport::Cancelled => Ok(IncrementalRunResult::Cancelled),
         BuildTerminationReport::Completed => {
-            match TargetEnvState::current(target_input, target_output).await {
+            match TargetEnvState::current(input_state, target_output).await {
                 Ok(Some(env_state)) => {
                     #[cfg(zinoma_verif)]
                     crate::verif::point("incr_computed", &target.id.to_string(), &[]).await;
@@ -98,20 +102,28 @@ pub struct TargetEnvState {
 }
 
 impl TargetEnvState {
-    pub async fn current(
-        target_input: &Resources,
-        target_output: Option<&Resources>,
-    ) -> Result<Option<Self>> {
+    pub async fn current_input(target_input: &Resources) -> Result<Option<ResourcesState>> {
         if target_input.is_empty() {
             Ok(None)
         } else {
-            let input = ResourcesState::current(target_input).await?;
-            let output = match target_output {
-                Some(target_output) => Some(ResourcesState::current(target_output).await?),
-                None => None,
-            };
+            Ok(Some(ResourcesState::current(target_input).await?))
+        }
+    }
 
-            Ok(Some(TargetEnvState { input, output }))
+    pub async fn current(
+        input_state: Result<Option<ResourcesState>>,
+        target_output: Option<&Resources>,
+    ) -> Result<Option<Self>> {
+        match input_state? {
+            None => Ok(None),
+            Some(input) => {
+                let output = match target_output {
+                    Some(target_output) => Some(ResourcesState::current(target_output).await?),
+                    None => None,
+                };
+
+                Ok(Some(TargetEnvState { input, output }))
+            }
         }
     }
 
